@@ -100,10 +100,32 @@ def model_class(lags, leads):
     return _classes[key]
 
 
+VIA_REINDEX = False   # when set, every model is obtained by solving a longer model and reindexing it (object history)
+
+
 def build(cfg, kind):
     L = cfg['L']
-    span = make_span(kind, L)
-    m = model_class(cfg['lags'], cfg['leads'])(span)
+    if VIA_REINDEX and L >= 1:
+        # history: a model over one more period is solved over its default range, then reindexed to the L periods
+        # from its second one on; the behaviour of the specification applies to the result like to a fresh object
+        big = make_span(kind, L + 1)
+        m0 = model_class(cfg['lags'], cfg['leads'])(big)
+        m0.__dict__['_v_fault'] = ['none'] * (L + 1)
+        m0.__dict__['_v_log'] = []
+        try:
+            with warnings.catch_warnings():
+                warnings.simplefilter('ignore')
+                m0.solve(max_iter=3, failures='ignore', errors='ignore')
+                list(m0.iter_periods())
+        except Exception:
+            pass
+        span = big[1:]
+        m = m0.reindex(span)
+        m.__dict__['_status'][:] = '-'
+        m.__dict__['_iterations'][:] = -1
+    else:
+        span = make_span(kind, L)
+        m = model_class(cfg['lags'], cfg['leads'])(span)
     m.__dict__['_Y'][:] = [float(10 + i) for i in range(L)]
     m.__dict__['_Z'][:] = [float(50 + i) for i in range(L)]
     if cfg.get('prior'):
@@ -333,6 +355,18 @@ def main():
                 out['skipped'] += 1
                 continue
             out['n'] += 1
+            if (idx + len(kind)) % 4 == 1 and kind not in ('range0', 'listfalsy', 'listfloat'):
+                # the same behaviour on an object with a history (solved, then reindexed)
+                global VIA_REINDEX
+                VIA_REINDEX = True
+                try:
+                    d4, o4 = run_record(rec, kind)
+                finally:
+                    VIA_REINDEX = False
+                out['n'] += 1
+                if d4:
+                    diffs = diffs + ['after-reindex:' + x for x in d4]
+                    obs = dict(obs or {}, after_reindex=o4)
             if (idx + len(kind)) % 3 == 0:
                 extra = EXTRA_OPTIONS[(idx // 3) % len(EXTRA_OPTIONS)]
                 d3 = run_twin_with_options(rec, kind, extra)
